@@ -14,6 +14,7 @@ from elementpath.aliases import XPath2ParserType
 from elementpath.helpers import FloatArgType, NUMERIC_INF_OR_NAN, INVALID_NUMERIC, \
     LazyPattern, collapse_white_spaces
 from .any_types import AnyAtomicType
+from .untyped import UntypedAtomic
 
 __all__ = ['Float', 'Float10', 'Integer', 'Int', 'Long',
            'NegativeInteger', 'PositiveInteger', 'NonNegativeInteger',
@@ -184,6 +185,13 @@ class Integer(int, AnyAtomicType):
 
     _lower_bound: Optional[int] = None
     _higher_bound: Optional[int] = None
+
+    def __new__(cls, value: Union[str, SupportsInt]) -> 'Integer':
+        if isinstance(value, (str, UntypedAtomic)):
+            value = collapse_white_spaces(str(value))
+            if cls.pattern.match(value) is None:
+                raise cls._invalid_value(value)
+        return super().__new__(cls, value)
 
     def __init__(self, value: Union[str, SupportsInt]) -> None:
         """
